@@ -125,8 +125,8 @@ func init() {
 	})
 	register(&Property{
 		ID: "C08",
-		Explanation: "Decides structural necessary conditions of `Compile never panics, never loops, never returns holes`: (R1) every lexer loop that reads input has no feasible cycle once read() returns the end-of-input sentinel (constant propagation of 0 through the loop, folding of the pure character predicates); (R2) every explicit panic reachable from Compile is the default of an exhaustive switch, the fall-out of a complete type switch, or in a frozen trusted table; (R3) no parse function's (nil, index, nil) return reaches a conversion or dereference without a nil test; (R4) every index into the regex pattern string and into the filtered expression-token slice is dominated by a comparison with len, with the entry-parameter obligation discharged at every call site; (R6) TokenType.PP is exhaustive and error constructors never get a nil token; (R7) the generator's and checker's type switches turn an unmatched or nil node into an error; (R8) the API functions returning (*Vore, error) return a program built on that path, a non-nil error, or both results of a function held to the same rule - never (nil, nil). " +
-			"Does NOT decide stack depth on deeply nested input, memory/time of large unrolled loops (`exactly 1000000000 'a'`), nor the sentinel discipline of the token parser beyond R3.",
+		Explanation: "Decides structural necessary conditions of `Compile never panics, never loops, never returns holes`: (R1) every lexer loop that reads input has no feasible cycle once read() returns the end-of-input sentinel (constant propagation of 0 through the loop, folding of the pure character predicates); (R2) every explicit panic reachable from Compile is the default of an exhaustive switch, the fall-out of a complete type switch, or in a frozen trusted table; (R3) no parse function's (nil, index, nil) return reaches a conversion or dereference without a nil test; (R4) every index into the regex pattern string and into the filtered expression-token slice is dominated by a comparison with len, with the entry-parameter obligation discharged at every call site; (R5) a typestate with function summaries over the token parser: an index may equal len(tokens) only when it leaves a scan loop that compares its counter with len(tokens) and has no exit on the EOF kind; such an index must pass a `< len(tokens)` test before it indexes the list or reaches a callee that does; (R6) TokenType.PP is exhaustive and error constructors never get a nil token; (R7) the generator's and checker's type switches turn an unmatched or nil node into an error; (R8) the API functions returning (*Vore, error) return a program built on that path, a non-nil error, or both results of a function held to the same rule - never (nil, nil); (R9) every HexToAscii call is dominated by two IsHex tests; (R10) every loop of the generator and checker is counted or a range iteration. " +
+			"Does NOT decide stack depth on deeply nested input nor memory/time of large unrolled loops (`exactly 1000000000 'a'`).",
 		Assumptions: append([]string{"tokens always ends in an EOF token and consumeIgnoreableTokens never steps past it (axioms A1, A2)", "bufio.Reader's end of input is sticky (A3)"}, commonAssumptions...),
 		Rules: []RuleFn{
 			{Name: "C08.R1", Run: func(c *Ctx) { ruleEOFWorld(c, "C08.R1") }},
@@ -142,6 +142,7 @@ func init() {
 				})
 			}},
 			{Name: "C08.R4", Run: func(c *Ctx) { ruleIndexGuards(c, "C08.R4") }},
+			{Name: "C08.R5", Run: func(c *Ctx) { ruleTokenIndexInBounds(c, "C08.R5") }},
 			{Name: "C08.R6", Run: func(c *Ctx) { ruleErrorsPrintable(c, "C08.R6") }},
 			{Name: "C08.R7", Run: func(c *Ctx) { ruleTypeSwitchTotal(c, "C08.R7") }},
 			{Name: "C08.R8", Run: func(c *Ctx) { ruleCompileNeverNilNil(c, "C08.R8") }},
